@@ -292,7 +292,8 @@ impl<'a> ScopeGen<'a> {
             "let" => {
                 let t = self.target();
                 let g = self.g();
-                match self.rng.below(6) {
+                match self.rng.below(7) {
+                    6 => vec![Op::LetUndefined { g, t }],
                     0 | 1 | 2 => {
                         let src = self.target();
                         vec![Op::LetCs { g, t, src }]
